@@ -427,6 +427,107 @@ def check(run):
 
     run.assume("time / memory proportionality beyond the STL and PLY header guards, third-party parsers (lxml, json, PIL, collada, meshio), and "
                "RecursionError on cyclic references are not decided")
+    # ------------------------------------------------------------------ R8 no allocation sized by the largest VALUE found in a file
+    run.rule("R8", "no function on a load path allocates an array whose length is the largest value of file-supplied index data (`np.zeros(idx.max() + 1)`): memory must be "
+                   "bounded by the size of the input, so a single huge index in a 200-byte file cannot ask for gigabytes before the range check that would reject it")
+    reach = {}
+    frontier = [f for m in mods for f in funcs_of(ix, m)]
+    for f in frontier:
+        reach[id(f)] = f
+    for _ in range(2):
+        nxt = []
+        for f in frontier:
+            for n in own_walk(f.node):
+                if isinstance(n, ast.Call):
+                    try:
+                        r = ix.resolve_expr(f.module, n.func)
+                    except Exception:
+                        r = None
+                    if hasattr(r, "qualname") and hasattr(r, "node") and id(r) not in reach and isinstance(r.node, (ast.FunctionDef, ast.AsyncFunctionDef)):
+                        reach[id(r)] = r
+                        nxt.append(r)
+        frontier = nxt
+    ALLOC = {"zeros", "ones", "empty", "full", "arange"}
+    n8 = 0
+    for f in reach.values():
+        for n in own_walk(f.node):
+            if not (isinstance(n, ast.Call) and ast.unparse(n.func).split(".")[-1] in ALLOC and ast.unparse(n.func).split(".")[0] in ("np", "numpy") and n.args):
+                continue
+            size = n.args[0]
+            # local definitions of names in the size expression (one step)
+            exprs = [size]
+            for nm in ast.walk(size):
+                if isinstance(nm, ast.Name):
+                    for st in own_walk(f.node):
+                        if isinstance(st, ast.Assign) and len(st.targets) == 1 and isinstance(st.targets[0], ast.Name) and st.targets[0].id == nm.id:
+                            exprs.append(st.value)
+            maxes = [c for e in exprs for c in ast.walk(e) if isinstance(c, ast.Call) and isinstance(c.func, ast.Attribute) and c.func.attr == "max" and not c.args
+                     and not any(isinstance(x, ast.Attribute) and x.attr in ("shape",) for x in ast.walk(c.func.value))]
+            maxes += [c for e in exprs for c in ast.walk(e) if isinstance(c, ast.Call) and ast.unparse(c.func) in ("np.max", "numpy.max", "max", "np.amax") and len(c.args) == 1
+                      and not isinstance(c.args[0], (ast.List, ast.Tuple))]
+            if not maxes:
+                continue
+            subj = ast.unparse(maxes[0].func.value) if isinstance(maxes[0].func, ast.Attribute) and not maxes[0].args else ast.unparse(maxes[0].args[0])
+            # a bounds test of that very maximum against a length / count earlier in the function
+            bounded = False
+            for c in own_walk(f.node):
+                if isinstance(c, ast.Compare) and c.lineno <= n.lineno and "max" in ast.unparse(c) and subj.split("[")[0] in ast.unparse(c) and \
+                        ("len(" in ast.unparse(c) or ".shape" in ast.unparse(c) or ".size" in ast.unparse(c)):
+                    bounded = True
+            # index data produced inside the library (unique / bincount / arange results) is bounded by the row count
+            internal = False
+            for st in own_walk(f.node):
+                if isinstance(st, ast.Assign) and any(isinstance(t, ast.Name) and t.id == subj.split("[")[0].split(".")[0] for t in ast.walk(st.targets[0])):
+                    if any(isinstance(c, ast.Call) and ast.unparse(c.func).split(".")[-1] in ("unique", "unique_rows", "bincount", "arange", "argsort", "nonzero", "cumsum", "unique_ordered", "group_rows")
+                           for c in ast.walk(st.value)):
+                        internal = True
+            # the data is a parameter: the bound may be established by the callers.  A call site counts when the allocation is behind an
+            # option (`if maintain_faces:` with maintain_faces read from a keyword that defaults to False) the site does not pass, or when
+            # the caller tests `<argument>.max()` against a length before the call
+            root_ = subj.split("[")[0].split(".")[0]
+            by_callers = None
+            if not (bounded or internal) and root_ in f.params:
+                opt = None
+                for g_ in own_walk(f.node):
+                    if isinstance(g_, ast.If) and any(x is n for x in ast.walk(g_)) and isinstance(g_.test, ast.Name):
+                        for st in own_walk(f.node):
+                            if isinstance(st, ast.Assign) and len(st.targets) == 1 and isinstance(st.targets[0], ast.Name) and st.targets[0].id == g_.test.id \
+                                    and isinstance(st.value, ast.Call) and ast.unparse(st.value.func).endswith(".get") and len(st.value.args) == 2 \
+                                    and isinstance(st.value.args[0], ast.Constant) and ast.unparse(st.value.args[1]) == "False":
+                                opt = st.value.args[0].value
+                        if g_.test.id in f.params:
+                            opt = g_.test.id
+                sites = []
+                for h in reach.values():
+                    for c in own_walk(h.node):
+                        if isinstance(c, ast.Call):
+                            try:
+                                r = ix.resolve_expr(h.module, c.func)
+                            except Exception:
+                                r = None
+                            if r is f:
+                                sites.append((h, c))
+                verdicts = []
+                for h, c in sites:
+                    if opt is not None and not any(k.arg == opt for k in c.keywords) and not any(k.arg is None for k in c.keywords):
+                        verdicts.append(True)
+                        continue
+                    pos = f.params.index(root_)
+                    arg = c.args[pos] if pos < len(c.args) else next((k.value for k in c.keywords if k.arg == root_), None)
+                    an = ast.unparse(arg) if arg is not None else None
+                    verdicts.append(an is not None and any(isinstance(q, ast.Compare) and q.lineno <= c.lineno and f"{an}.max()" in ast.unparse(q)
+                                                           and ("len(" in ast.unparse(q) or ".shape" in ast.unparse(q)) for q in own_walk(h.node)))
+                by_callers = bool(sites) and all(verdicts)
+            n8 += 1
+            ok = bounded or internal or bool(by_callers)
+            where_ = f"{f.module.rel}:{n.lineno} {f.qualname}"
+            run.instance("R8", where_, f"`{ast.unparse(n)[:60]}` sized by max of `{subj[:30]}`: bounds-checked {bounded}, produced by an index computation {internal}, bounded by every caller {by_callers}", ok,
+                         nontrivial=True)
+            if not ok:
+                run.violation("R8", where_, f"`{f.qualname}` allocates `{ast.unparse(n)[:60]}`: the length is the largest value in `{subj[:40]}`, which on a load path comes from the "
+                                            f"file - one out-of-range index asks for that many entries (gigabytes) before any range check; allocate by the number of rows instead",
+                              key=key_of("C20-R8", f.qualname, ast.unparse(n)[:40]))
+    run.analysed["functions_reachable_from_loader_modules"] = len(reach)
     return {
         "explanation": "CFG post-dominance with exception edges for the close discipline; who-may-open table over every open / tempfile site of the loader "
         "modules; a terminating-shape rule per while loop with constant propagation of the end-of-stream value through stream loops; EXITS effect "
